@@ -121,7 +121,18 @@ def check(ctx: Ctx) -> list[RuleResult]:
         r3.nontrivial += 1
         from .common import expand as _expand16
 
-        kw = {k.arg: norm(_expand16(rc.node, k.value, pure_only=False)) for k in c.keywords}
+        kw = {k.arg: norm(_expand16(rc.node, k.value, pure_only=False)) for k in c.keywords if k.arg is not None}
+        # keyword arguments hoisted into a dict and passed with ** are the same call
+        for k in c.keywords:
+            if k.arg is None:
+                dv = _expand16(rc.node, k.value, pure_only=False)
+                if isinstance(dv, ast.Dict) and all(isinstance(kk, ast.Constant) and isinstance(kk.value, str) for kk in dv.keys):
+                    for kk, vv in zip(dv.keys, dv.values):
+                        kw[kk.value] = norm(_expand16(rc.node, vv, pure_only=False))
+                elif isinstance(dv, ast.Call) and norm(dv.func) == "dict" and not dv.args:
+                    for k2 in dv.keywords:
+                        if k2.arg is not None:
+                            kw[k2.arg] = norm(_expand16(rc.node, k2.value, pure_only=False))
         a0 = norm(_expand16(rc.node, c.args[0], pure_only=False)) if c.args else None
         if a0 == "self._msg_handler" and kw.get("exclude_list") == "self._exclude" and kw.get("include_list") == "self._include" and kw.get("disable_sending") == "True":
             r3.ok({"protocol_factory": {"handler": a0, **kw}})
